@@ -217,9 +217,11 @@ func compile0(expr ast.Expr, env1 *val.Env, dbg bool) compiler.Closure {
 	case *ast.MemberExpr:
 		// 也可以 desugar 成 build-in-fun
 		obj := compile(e.Obj, env1, dbg)
-		idx := e.Index
+		// 结构类型不区分字段顺序, 运行时值的字段顺序可能与静态类型不一致, 必须按字段名访问
+		name := e.Field.Name
 		return func(env *val.Env) *val.Val {
-			return obj(env).Obj().V[idx]
+			v, _ := obj(env).Obj().Get(name)
+			return v
 		}
 
 	//case *ast.IfExpr:
